@@ -9,6 +9,9 @@ import PowHsm.Spec.C03
 import PowHsm.Spec.C02
 import PowHsm.Spec.C04
 import PowHsm.Spec.C11
+import PowHsm.Spec.C01
+import PowHsm.Spec.C05
+import PowHsm.Spec.C13
 namespace PowHsm
 namespace Ops
 open Ledger Comm Dongle Spec
@@ -112,6 +115,24 @@ def line (spec : Json → LineObs → Bool) (input implOut : Json) : Option (Jso
   let io ← LineObs.ofJson? implOut
   pure (m.toJson, spec input io)
 
+def devViewOfJson (j : Json) : Option Spec.C13.DevView := do
+  let nat (k : String) : Option Nat := (j.get? k).bind Json.asNat?
+  let bytes (k : String) : Option Bytes := (j.get? k).bind Json.asBytes?
+  let keys ← match j.get? "keys" with
+    | some (.obj kvs) => kvs.mapM fun (k, v) => v.asBytes?.map fun b => (k, b)
+    | _ => none
+  let hashes ← match j.get? "hashes" with
+    | some (.obj kvs) => kvs.mapM fun (k, v) => do pure ((← k.toNat?), (← v.asBytes?))
+    | _ => none
+  let flags ← match j.get? "flags" with
+    | some (.arr xs) => xs.mapM Json.asNat?
+    | _ => none
+  pure { keys := keys, hashes := hashes, difficulty := ← nat "difficulty", flags := flags,
+         checkpoint := ← bytes "checkpoint", minDifficulty := ← nat "min_difficulty",
+         network := ← nat "network", hbSig := ← bytes "hb_sig", hbMsg := ← bytes "hb_msg",
+         hbHash := ← bytes "hb_hash", hbPub := ← bytes "hb_pub",
+         modeBefore := ← nat "mode_before", modeAfter := ← nat "mode_after" }
+
 def run (op : String) (input implOut : Json) : Option (Json × Bool) :=
   match op with
   | "unsign" => unsign input implOut
@@ -126,6 +147,15 @@ def run (op : String) (input implOut : Json) : Option (Json × Bool) :=
       | _, _ => false) input implOut
   | "line.C11" => line (fun i o => match worldOfJson i, i.get? "request" with
       | some w, some j => Spec.C11.c11 (modeOfJson i) (Spec.C04.commandOf j) w.script w.commIssue o
+      | _, _ => false) input implOut
+  | "line.C01" => line (fun i o => match worldOfJson i, i.get? "request" with
+      | some w, some j => Spec.C01.c01 (modeOfJson i) j w.script w.commIssue o
+      | _, _ => false) input implOut
+  | "line.C05" => line (fun i o => match worldOfJson i, i.get? "request" with
+      | some w, some j => Spec.C05.c05 j (hashesOfJson i).keccak (hashesOfJson i).cbHash w.script w.commIssue o
+      | _, _ => false) input implOut
+  | "line.C13" => line (fun i o => match i.get? "request", (i.get? "devstate").bind devViewOfJson with
+      | some j, some d => Spec.C13.c13 j d o
       | _, _ => false) input implOut
   | _ => none
 
